@@ -322,7 +322,8 @@ def run(ctx):
 
     entry_checks(ctx)
     from . import C17
-    C17.entry_delegation(ctx, "C07.R3")      # the byte/file entry points hand the same keyword arguments (_params) on as the stream entry points
+    C17.entry_delegation(ctx, "C07.R3")
+    unused_parameters(ctx, "C07.R3", lambda f: f.cls is not None and f.cls.name in ("Construct", "Compiled") and not f.name.startswith("_"))      # the byte/file entry points hand the same keyword arguments (_params) on as the stream entry points
     member_store_checks(ctx)
     ctx.floor("C07.R4", 15)
     index_checks(ctx)
